@@ -51,13 +51,34 @@ D0[D]{K*(892)bar0{K-,pi+},rho(770)0{pi+,pi-}}   2 1 0   2 0 0
     "fF": """EventType D0 K- pi+ pi+ pi-
 D0{K(1460)bar-{K*(892)bar0{K-,pi+},pi-},pi+}   0 0.122 0.011   0 1.84 0.02
 """,
+    # amplitudes whose full names are longer than any of the shipped model (73 and 76 characters), with the splined and
+    # K-matrix lineshapes and the parameter lines those need
+    "fH": """EventType D0 K- pi+ pi+ pi-
+D0{K(1)(1270)bar-[D;GSpline.EFF]{K*(892)bar0[FOCUS.I32]{K-,pi+},pi-},pi+}   0 0.322109 0.011   0 0.561924 0.02
+D0{a(1)(1260)+[D;kMatrix.pole.0]{rho(770)0[kMatrix.pole.1]{pi+,pi-},pi+},K-}   0 0.25 0.01   0 -1.5 0.01
+K(1)(1270)bar-::Spline::Min 0.6
+K(1)(1270)bar-::Spline::Max 3.0
+K(1)(1270)bar-::Spline::N 4
+K(1)(1270)bar-::Spline::Gamma::0   0   0.0010008403   0
+K(1)(1270)bar-::Spline::Gamma::1   0   0.0020006490   0.000100001234
+K(1)(1270)bar-::Spline::Gamma::2   0   0.0030001132   0
+K(1)(1270)bar-::Spline::Gamma::3   2   0.0040008684   0.000100001234
+f_scatt0   0   0.100000014   0.0100000123
+f_scatt1   0   0.200000073   0.0100000123
+f_scatt2   2   0.300000016   0.0100000123
+f_scatt3   2   0.400000013   0.0100000123
+f_scatt4   2   0.500000028   0.0100000123
+""" + "".join(f"IS_p{i}_{ch}   2   {(i - 1) / 10 + k / 100:.4f}   0\n" for i in range(1, 6)
+              for k, ch in ((4, "pipi"), (2, "KK"), (3, "4pi"), (6, "EtaEta"), (7, "EtapEta"), (4, "mass")))
+          + "s0_prod   2   -0.07   0\ns0_scatt   2   -3.92637   0\nsA   2   1.0   0\nsA0   2   -0.15   0\n",
 }
 
 
 # abstract resonance names of AmpSession.tla -> (AmpGen name, PDG id); first mother line numbers of each file
 RES = {"r1": ("K*(892)bar0", -313), "r2": ("rho(770)0", 113), "r3": ("a(1)(1260)+", 20213), "r4": ("K(1)(1270)bar-", -10323),
        "r5": ("rho(1450)0", 100113), "r6": ("KPi00", 998111), "r7": ("PiPi00", 998101), "r8": ("omega(782)0", 223), "r9": ("K(1460)bar-", -100321)}
-FIRST = {"fA": (0.196037, -0.390311), "fB": (0.813449, -2.60325), "fC": (0.361958, 1.99329), "fD": (0.642781, 1.69828), "fE": (0.3, 1.1), "fF": (0.122, 1.84), "fG": (0.196037, -0.390311)}
+FIRST = {"fA": (0.196037, -0.390311), "fB": (0.813449, -2.60325), "fC": (0.361958, 1.99329), "fD": (0.642781, 1.69828), "fE": (0.3, 1.1), "fF": (0.122, 1.84), "fG": (0.196037, -0.390311),
+         "fH": (0.322109, 0.561924)}
 
 
 def prog_names():
@@ -148,7 +169,7 @@ def run(tier, seed, replay_path=None):
         for v, expect in (("per_read", False), ("accumulating", True), ("no_restore_when_rejected", True), ("table_on_demand", True), ("params_into_particles", True), ("index_memo", True)):
             r = tlc.run("AmpSession", tlc.cfg_text(constants=dict(Variant=v, MaxLen=4, EmitMode="none"),
                                                    invariants=["HistoryIndependent"], view="AbsView"), workdir=wd, keep_records=False)
-            o.add_tlc(r, f"AmpSession variant {v}: HistoryIndependent over all histories of <= 4 calls (3 classes x 7 files)",
+            o.add_tlc(r, f"AmpSession variant {v}: HistoryIndependent over all histories of <= 4 calls (3 classes x 8 files)",
                       expect_violation=expect)
             if expect and "HistoryIndependent" not in r.violated:
                 raise Machinery(f"variant {v} not refuted")
@@ -185,6 +206,8 @@ def run(tier, seed, replay_path=None):
         # ... and the same amplitudes under two orders of the event type (conversions: the index lists are in the text)
         c4 = rng.choice(cl[1:])
         chosen += [[(c2, "fA"), (c2, "fG")], [(c4, "fG"), (c2, "fA")]]
+        # ... and the file with the longest amplitude names, first and second, by both converters
+        chosen += [[("cpp", "fH"), (c4, "fD")], [(c1, "fB"), ("py", "fH")]]
         if replay_path:
             chosen = [[tuple(x) for x in json.load(open(replay_path))["case"]["history"]]]
         seeds = list(range(8 if deep else 3))
@@ -241,7 +264,7 @@ def run(tier, seed, replay_path=None):
                           {"history": [[c, Path(p).stem] for c, p in calls]}, {})
         o.notes.update(histories_run=len(chosen), single_calls=len(singles), hash_seeds=seeds, fresh_interpreters=len(results))
         o.sample({"history": [list(x) for x in chosen[0]], "files": TEXTS})
-        o.rule = ("histories of 2 and 3 read/convert calls (3 reader classes x 7 files with disjoint / overlapping resonances, the "
+        o.rule = ("histories of 2 and 3 read/convert calls (3 reader classes x 8 files with disjoint / overlapping resonances, the "
                   "cartesian option absent / 0 / 1, one file that is rejected after its option was applied, one whose particle parameters the special table overrides) emitted by TLC from AmpSession.tla, a sample executed each in its own fresh "
                   "interpreter; every call's result compared with the same single call in a fresh interpreter; single calls "
                   "repeated under several PYTHONHASHSEED values; a subset of histories run twice for exact reproduction; "
